@@ -52,8 +52,10 @@ OPEN_STATEMENTS = [
     'two_hole_map_correct / particle_hole_map_correct: the formulas of map_two_pdm_to_two_hole_dm / ..._particle_hole_dm hold for '
     'the RDMs of every linear functional, and the bridge model_*_is_* : the Model entry functions the driver executes (over GQ, '
     'a commutative ring) applied to the RDMs of any GQ-linear functional on any GQ-algebra with the CAR return its 2-hole / '
-    'particle-hole RDM, contracted 1-RDM and expectation value.  Not formalised: a bridge for chemEntry / corrEntry (the '
-    'reindexing g[p,q,r,s] = h[p,r,s,q] of chemist_reorder_identity is stated in the docstring), N-representability of inputs.',
+    'particle-hole RDM, contracted 1-RDM and expectation value; model_chemist_entries_are_chemist_reordering bridges chemEntry '
+    '(spin_basis=False) with its spatial one-body correction.  Not formalised: the spin-orbital form of the bridge (spin_basis=True '
+    'block extraction and corrEntry on 2n spin orbitals; covered by spec.eq), a Model-level low-rank reconstruction statement '
+    '(needs the eigh contract as a hypothesis), N-representability of inputs.',
 ]
 
 # ----------------------------------------------------------------------------- dense reference algebra
